@@ -23,6 +23,12 @@ func (v *Vue) evalAttributes(ctx VueContext, n *html.Node) (map[string]any, erro
 	// First pass: collect static attributes and evaluate bound ones
 	for _, a := range n.Attr {
 		key := a.Key
+		if key == "data-v-html-content" || key == "data-v-text-content" {
+			// internal carriers of an already substituted v-html / v-text value: copied as they are,
+			// mustache syntax inside the value is data, not template
+			newAttrs = append(newAttrs, html.Attribute{Key: key, Val: strings.TrimSpace(a.Val)})
+			continue
+		}
 		val := strings.TrimSpace(a.Val)
 
 		boundValue := val
